@@ -179,9 +179,10 @@ def _introns(introns):
 
 
 # ---------------------------------------------------------------- generator
-def _rand_trace(rng, n, style):
+def _rand_trace(rng, n, style, ncol=None):
     """columns of a valid trace for n sequences + sequence lengths.  style: global | local | jumps"""
-    ncol = rng.choice([0, 1, 2, 3, 4, 5, 6, 8, 11]) if rng.random() < 0.9 else rng.randint(12, 30)
+    if ncol is None:
+        ncol = rng.choice([0, 1, 2, 3, 4, 5, 6, 8, 11]) if rng.random() < 0.9 else rng.randint(12, 30)
     pos = [0] * n
     if style != "global":
         pos = [rng.choice([0, 0, 1, 2, 5]) for _ in range(n)]
@@ -291,6 +292,9 @@ def trace_cases(rng, n_cases):
             n = 2
             cols, lens = _rand_pair_trace(rng, "global" if style == "global" else "local")
             style = "global" if style == "global" else "local"
+        elif rng.random() < 0.03:
+            # rows whose length sits on the line width of FASTA files (80) and of str(alignment) (70)
+            cols, lens, _ = _rand_trace(rng, n, style, ncol=rng.choice([69, 70, 71, 79, 80, 81, 140, 160, 161]))
         else:
             cols, lens, _ = _rand_trace(rng, n, style)
         strs = [_rand_seq(rng, alph[:rng.choice([2, len(alph)])], ln) for ln in lens]
@@ -314,7 +318,77 @@ def trace_cases(rng, n_cases):
                 introns = introns + [rng.choice([(3, 3), (-1, 2), (0, 1), (2, 5)])]     # malformed / outside gaps
             opt = f"{ri} {si} {_introns(introns)} {rng.choice('01')} {rng.choice('01')} {rng.choice('01')}"
             ops.append(rng.choice(["cigar_w", "cigar_t", "cigar_rt", "cigar_rt"]) + " " + opt)
+        if rng.random() < 0.35 and cols:
+            # state across calls: edit the SAME Alignment object in place, then convert again
+            again = [o for o in ops[1:] if o.split()[0] in ("strings", "codes", "symbols", "fasta", "termgaps", "rmgaps", "ident", "pident", "score")]
+            for _ in range(rng.randint(1, 3)):
+                r = rng.random()
+                if r < 0.45:
+                    i, k = rng.randrange(len(cols)), rng.randrange(n)
+                    v = rng.choice(["-", str(rng.randrange(max(1, lens[k] + 1)))])
+                    ops.append(f"tset {i} {k} {v}")
+                elif r < 0.75:
+                    k = rng.randrange(n)
+                    ops.append(f"sset {k} {_rand_seq(rng, alph, max(1, lens[k] + rng.choice([0, 0, 1]))) }")
+                else:
+                    a = rng.randrange(len(cols))
+                    ops.append(f"tdel {a} {min(len(cols), a + rng.randint(1, 2))}")
+                ops += again if again else ["strings", "codes"]
+                ops += ["strings", "symbols"]
         yield {"kind": "trace/" + style, "ops": ops, "alph": alph, "seqs": strs, "trace": cols, "style": style, "valid": True}
+
+
+def history_cases(rng, n_cases):
+    """oracle-level: every conversion, an in-place edit of the same Alignment, every conversion again; compared with a fresh
+    Alignment of the same content; refused calls must leave the object untouched"""
+    for _ in range(n_cases):
+        n = rng.choice([2, 2, 3])
+        alph = rng.choice([NUC, PROT])
+        style = rng.choice(["global", "local"])
+        if n == 2 and rng.random() < 0.6:
+            cols, lens = _rand_pair_trace(rng, style)
+        else:
+            cols, lens, _ = _rand_trace(rng, n, style)
+        if rng.random() < 0.15:
+            cols = cols * rng.choice([8, 14])        # long rows: __str__ and FASTA wrap lines
+            cols = _renumber(cols)
+            lens = [sum(1 for c in cols if c[k] >= 0) for k in range(n)]
+        strs = [_rand_seq(rng, alph[:20], ln) for ln in lens]
+        edits = []
+        for _ in range(rng.randint(1, 3)):
+            r = rng.random()
+            if r < 0.3 and cols:
+                edits.append(["cell", rng.randrange(len(cols)), rng.randrange(n), rng.choice([-1, 0, 1, 2])])
+            elif r < 0.45 and cols:
+                a = rng.randrange(len(cols))
+                edits.append(["rows", a, min(len(cols), a + rng.randint(1, 3)), rng.choice(["gapfirst", "reverse", "shift"])])
+            elif r < 0.6 and cols:
+                a = rng.randrange(len(cols))
+                edits.append(["delrows", a, min(len(cols), a + rng.randint(1, 2))])
+            elif r < 0.7:
+                edits.append(["addrow", [rng.choice([-1, 0]) for _ in range(n)]])
+            elif r < 0.85:
+                k = rng.randrange(n)
+                edits.append(["seq", k, _rand_seq(rng, alph[:20], max(1, lens[k] + rng.choice([0, 1])))])
+            elif r < 0.93:
+                k = rng.randrange(n)
+                edits.append(["seqcode", k, rng.randrange(max(1, lens[k])), rng.randrange(4)])
+            else:
+                edits.append(["score", rng.choice([None, 0, 7, -3])])
+        yield {"kind": "history", "alph": alph, "seqs": strs, "trace": cols, "edits": edits, "mseed": rng.randint(0, 10 ** 6)}
+
+
+def spell_cases(rng, n_cases):
+    """oracle-level: the same arguments in other spellings (NumPy scalars, other integer widths, F-order / strided /
+    read-only traces, list / tuple / ndarray) must give the same results"""
+    for _ in range(n_cases):
+        alph = rng.choice([NUC, PROT])
+        style = rng.choice(["global", "local"])
+        cols, lens = _rand_pair_trace(rng, style)
+        if not cols or not any(c[1] >= 0 for c in cols):
+            cols, lens = [[0, 0], [1, -1], [2, 1]], [3, 2]
+        strs = [_rand_seq(rng, alph[:20], ln) for ln in lens]
+        yield {"kind": "spell", "alph": alph, "seqs": strs, "trace": cols, "mseed": rng.randint(0, 10 ** 6)}
 
 
 def string_cases(rng, n_cases):
@@ -420,7 +494,17 @@ def msa_cases(rng, n_cases):
                 for j in range(i):
                     dist[i][j] = dist[j][i] = rng.choice([0.25, 0.5, 1.0, 1.5, 2.0, 0.125 * rng.randint(1, 40)])
         tree = _rand_tree(rng, range(n), multi=rng.random() < 0.3) if rng.random() < 0.4 else None
-        case = {"kind": "msa/" + kind, "alph": alph, "seqs": seqs, "gap": list(gap) if isinstance(gap, tuple) else gap, "tp": tp,
+        spell = None
+        if rng.random() < 0.3:
+            spell = {"dist": rng.choice(["f32", "f64F", "int", "strided"]) if dist is not None else None, "tp_np": rng.random() < 0.5,
+                     "seqs_tuple": rng.random() < 0.5}
+            if spell["dist"] == "int" and dist is not None:
+                dist = [[float(round(x * 8)) for x in row] for row in dist]
+                for i in range(n):
+                    for j in range(n):
+                        if i != j and dist[i][j] == 0:
+                            dist[i][j] = 1.0
+        case = {"kind": "msa/" + kind, "spell": spell, "alph": alph, "seqs": seqs, "gap": list(gap) if isinstance(gap, tuple) else gap, "tp": tp,
                 "dist": dist, "tree": tree, "mseed": rng.randint(0, 10 ** 6), "same": same}
         line = _msa_line(case)
         if line is not None:
@@ -593,6 +677,8 @@ def badtree_cases(rng, n_cases):
 
 def cases(rng, tier):
     q = tier == "quick"
+    yield from history_cases(rng, 150 if q else 2500)
+    yield from spell_cases(rng, 60 if q else 1000)
     yield from tree_cases(rng, 60 if q else 1000)
     yield from dist_cases(rng, 80 if q else 2000)
     yield from badtree_cases(rng, 6 if q else 40)
@@ -863,6 +949,24 @@ def run_impl(case):
                 back = align.read_alignment_from_cigar("" if w[1] == "_" else w[1], int(w[2]), ref, ref)
                 return "ok " + _tr(back.trace.tolist())
             out.append(_fmt(f_read))
+        elif w[0] == "tset":
+            def f_tset():
+                ali.trace[int(w[1]), int(w[2])] = -1 if w[3] == "-" else int(w[3])
+                return "ok"
+            out.append(_fmt(f_tset))
+        elif w[0] == "sset":
+            def f_sset():
+                k = int(w[1])
+                a = alph if alph is not None else None
+                old_alph = "".join(str(x) for x in ali.sequences[k].get_alphabet().get_symbols())
+                ali.sequences[k] = _mkseq(old_alph if a is None else a, "" if w[2] == "_" else w[2])
+                return "ok"
+            out.append(_fmt(f_sset))
+        elif w[0] == "tdel":
+            def f_tdel():
+                ali.trace = np.delete(ali.trace, slice(int(w[1]), int(w[2])), axis=0)
+                return "ok"
+            out.append(_fmt(f_tdel))
         elif w[0] == "asbin":
             def f_asbin():
                 from biotite.sequence.phylo import Tree, TreeNode, as_binary
@@ -922,6 +1026,19 @@ def _msa_inputs(case):
         seqs.append(objs[same[i]])
     gap = tuple(case["gap"]) if isinstance(case["gap"], list) else case["gap"]
     dist = None if case["dist"] is None else np.array(case["dist"], dtype=float)
+    sp = case.get("spell") or {}
+    if dist is not None and sp.get("dist") == "f32":
+        dist = dist.astype(np.float32)
+    elif dist is not None and sp.get("dist") == "f64F":
+        dist = np.asfortranarray(dist)
+    elif dist is not None and sp.get("dist") == "int":
+        dist = dist.astype(np.int64)
+    elif dist is not None and sp.get("dist") == "strided":
+        big = np.zeros((2 * len(dist), 2 * len(dist)))
+        big[::2, ::2] = dist
+        dist = big[::2, ::2]
+    if sp.get("seqs_tuple"):
+        seqs = tuple(seqs)
     tree = None
     if case["tree"] is not None:
         from biotite.sequence.phylo import Tree, TreeNode
@@ -960,8 +1077,13 @@ def _msa_call(case):
         calls.append([[int(x), int(y)] for x, y in res[0].trace.tolist()])
         return res
     M.align_optimal = rec
+    import numpy as _np
+    tp = _np.bool_(case["tp"]) if (case.get("spell") or {}).get("tp_np") else case["tp"]
     try:
-        ali, order, gtree, _d = align.align_multiple(seqs, matrix, gap_penalty=gap, terminal_penalty=case["tp"], distances=dist, guide_tree=tree)
+        ali, order, gtree, _d = align.align_multiple(seqs, matrix, gap_penalty=gap, terminal_penalty=tp, distances=dist, guide_tree=tree)
+    except Exception as e:  # noqa: BLE001
+        # a refused call must leave the inputs untouched
+        return ("REFUSED", type(e).__name__, str(e)[:300], [[int(x) for x in q.code.tolist()] for q in seqs])
     finally:
         M.align_optimal = orig
     n_leaves = len(gtree.leaves)
@@ -1030,12 +1152,14 @@ _MSA_CACHE = {}
 
 def _run_msa(case):
     from common import sandbox, util
-    key = util.jdump({k: v for k, v in case.items() if k in ("alph", "seqs", "gap", "tp", "dist", "tree", "mseed", "same")})
+    key = util.jdump({k: v for k, v in case.items() if k in ("alph", "seqs", "gap", "tp", "dist", "tree", "mseed", "same", "spell")})
     if key not in _MSA_CACHE:
         import biotite.sequence.align.multiple  # noqa: F401  (import in the parent: the forked child must not pay for it)
         import biotite.sequence.phylo  # noqa: F401
         res = sandbox.run_forked(_msa_call, case, timeout=60)
-        if res[0] == "ok":
+        if res[0] == "ok" and res[1][0] == "REFUSED":
+            _MSA_CACHE[key] = ("err", res[1][1], res[1][2], res[1][3])
+        elif res[0] == "ok":
             _MSA_CACHE[key] = ("ok", res[1])
         elif res[0] == "err":
             _MSA_CACHE[key] = ("err", res[1], res[2])
@@ -1100,6 +1224,10 @@ def oracle(case):
         return _oracle_big(case)
     if kind == "fastagaps":
         return _oracle_gapchars(case)
+    if kind == "history":
+        return _oracle_history(case)
+    if kind == "spell":
+        return _oracle_spell(case)
     if kind == "asbin":
         return _oracle_asbin(case)
     if kind.startswith("dist/"):
@@ -1123,6 +1251,19 @@ def _oracle_gapchars(case):
         return []
     want = ([str(x) for x in ref.sequences], ref.trace.tolist())
     chars = [c for c in case["chars"] if c != "-"]
+    # seq_type=None: the type is detected from the text; text and trace must be the same
+    try:
+        import io
+        import warnings
+        import biotite.sequence.io.fasta as fasta
+        ff = fasta.FastaFile.read(io.StringIO("".join(f">s{i}\n{r}\n" for i, r in enumerate(case["subst"]))))
+        with warnings.catch_warnings():
+            warnings.simplefilter("ignore")
+            auto = fasta.get_alignment(ff, additional_gap_chars=tuple(chars))
+        if ([str(x) for x in auto.sequences], auto.trace.tolist()) != want:
+            v.append(("C11/fasta/auto-seq-type", f"{case['subst']} read with seq_type=None -> {[str(x) for x in auto.sequences]} {auto.trace.tolist()}, expected {want}"))
+    except Exception as e:  # noqa: BLE001
+        v.append(("C11/fasta/auto-seq-type/rejected", f"{case['subst']} read with seq_type=None: {type(e).__name__}: {e}"))
     for perm in _it.permutations(chars):
         try:
             got = _read_gapped(case["stype"], case["subst"], tuple(perm))
@@ -1251,6 +1392,18 @@ def _oracle_trace(case):
     exp_gs = ["".join("-" if c[k] < 0 else strs[k][c[k]] for c in cols) for k in range(n)]
     if gs != exp_gs:
         v.append(("C11/strings/gapped-sequences", f"{cols} {strs} -> {gs}"))
+    if n >= 1:
+        chunks = [[g[i:i + 70] for i in range(0, len(g), 70)] for g in exp_gs]
+        exp_str = "\n\n".join("\n".join(chunks[k][b] for k in range(n)) for b in range(len(chunks[0])))
+        if str(ali) != exp_str:
+            v.append(("C11/strings/__str__", f"{cols} {strs} -> {str(ali)!r}, expected {exp_str!r}"))
+    if len(ali) != ncol or not (ali == _mkali(list(alphs), strs, cols)):
+        v.append(("C11/alignment/len-or-eq", f"{cols} {strs}: len {len(ali)}, equal to an identical alignment: {ali == _mkali(list(alphs), strs, cols)}"))
+    try:
+        iter(ali)
+        v.append(("C11/alignment/iterable", f"iter(alignment) did not raise"))
+    except TypeError:
+        pass
     back = align.Alignment.trace_from_strings(gs).tolist() if n >= 2 else None
     if back is not None and back != renum:
         v.append(("C11/strings/roundtrip", f"{cols} -> {gs} -> {back}"))
@@ -1270,7 +1423,13 @@ def _oracle_trace(case):
     if alph in (NUC, PROT) and n >= 2 and not mixed:
         import io
         ff = fasta.FastaFile()
-        fasta.set_alignment(ff, ali, [f"seq{i}" for i in range(n)])
+        try:
+            fasta.set_alignment(ff, ali, [f"seq{i}" for i in range(n - 1)])
+            v.append(("C11/fasta/set_alignment/name-count-accepted", f"{n} sequences, {n - 1} names accepted"))
+        except ValueError:
+            if len(ff) != 0:
+                v.append(("C11/fasta/set_alignment/refused-call-wrote-entries", f"{n} sequences, {n - 1} names: file has {len(ff)} entries"))
+        fasta.set_alignment(ff, ali, tuple(f"seq{i}" for i in range(n)))
         buf = io.StringIO()
         ff.write(buf)
         buf.seek(0)
@@ -1480,6 +1639,248 @@ def _leaves_text(t):
     return [int(x) for x in re.findall(r"\d+", t)]
 
 
+def _canon(x):
+    import numpy as np
+    if isinstance(x, np.ndarray):
+        return ("nd", x.shape, _canon(x.tolist()))
+    if isinstance(x, float):
+        return "nan" if x != x else round(x, 12)
+    if isinstance(x, (list, tuple)):
+        return [_canon(y) for y in x]
+    if hasattr(x, "trace") and hasattr(x, "sequences"):
+        return ("ali", [str(q) for q in x.sequences], x.trace.tolist(), x.score)
+    if isinstance(x, (np.integer,)):
+        return int(x)
+    if isinstance(x, (np.floating,)):
+        return _canon(float(x))
+    return x
+
+
+def _battery(ali, seed):
+    """every conversion / helper the property talks about, on one Alignment object: {name: canonical result | ERR:class}"""
+    import io
+    import random
+    import warnings
+
+    import numpy as np
+    import biotite.sequence.align as align
+    import biotite.sequence.io.fasta as fasta
+    r = random.Random(seed)
+    n = len(ali.sequences)
+    a0 = ali.sequences[0].get_alphabet()
+    k = len(a0)
+    m = np.zeros((k, k), dtype=np.int32)
+    for i in range(k):
+        for j in range(i, k):
+            m[i, j] = m[j, i] = r.randint(-4, 6)
+    matrix = align.SubstitutionMatrix(a0, a0, m)
+
+    def fasta_text():
+        ff = fasta.FastaFile()
+        fasta.set_alignment(ff, ali, [f"s{i}" for i in range(n)])
+        buf = io.StringIO()
+        ff.write(buf)
+        return buf.getvalue()
+    ncol = len(ali.trace)
+    calls = {
+        "gapped": lambda: ali.get_gapped_sequences(),
+        "str": lambda: str(ali),
+        "len": lambda: len(ali),
+        "codes": lambda: align.get_codes(ali),
+        "symbols": lambda: align.get_symbols(ali),
+        "termgaps": lambda: align.find_terminal_gaps(ali),
+        "rmterm": lambda: align.remove_terminal_gaps(ali),
+        "rmgaps": lambda: align.remove_gaps(ali),
+        "ident": lambda: [align.get_sequence_identity(ali, md) for md in ("all",)],
+        "ident_nt": lambda: align.get_sequence_identity(ali),
+        "ident_short": lambda: align.get_sequence_identity(ali, "shortest"),
+        "pident": lambda: align.get_pairwise_sequence_identity(ali, "all"),
+        "pident_nt": lambda: align.get_pairwise_sequence_identity(ali),
+        "pident_short": lambda: align.get_pairwise_sequence_identity(ali, mode="shortest"),
+        "score_default": lambda: align.score(ali, matrix),
+        "score_int": lambda: align.score(ali, matrix, -7, False),
+        "score_aff": lambda: align.score(ali, matrix, gap_penalty=(-6, -2), terminal_penalty=False),
+        "cigar": lambda: align.write_alignment_to_cigar(ali),
+        "cigar_opts": lambda: align.write_alignment_to_cigar(ali, 1, 0, introns=None, distinguish_matches=True, hard_clip=True,
+                                                              include_terminal_gaps=True),
+        "cigar_tuples": lambda: align.write_alignment_to_cigar(ali, reference_index=0, segment_index=n - 1, as_string=False),
+        "fasta": fasta_text,
+        "slice": lambda: ali[1:max(1, ncol - 1)],
+        "slice2d": lambda: ali[:ncol // 2 + 1, [n - 1, 0]],
+        "mask": lambda: ali[:, np.array([True] + [False] * (n - 2) + [True])],
+        "colmask": lambda: ali[np.array([i % 2 == 0 for i in range(ncol)], dtype=bool)],
+        "eq_self": lambda: ali == ali,
+        "repr_len": lambda: len(repr(ali)) > 0,
+    }
+    out = {}
+    for name, fn in calls.items():
+        try:
+            with np.errstate(all="ignore"), warnings.catch_warnings():
+                warnings.simplefilter("ignore")
+                out[name] = _canon(fn())
+        except Exception as e:  # noqa: BLE001
+            out[name] = "ERR:" + type(e).__name__
+    return out
+
+
+def _snapshot(ali):
+    return ([s.code.tolist() for s in ali.sequences], [str(type(s).__name__) for s in ali.sequences], ali.trace.tolist(),
+            str(ali.trace.dtype), ali.score)
+
+
+def _apply_edit(ali, alph, e):
+    """in-place edits of an Alignment (the object stays the same)"""
+    import numpy as np
+    if e[0] == "cell":
+        ali.trace[e[1], e[2]] = e[3]
+    elif e[0] == "rows":
+        blk = ali.trace[e[1]:e[2]].copy()
+        if e[3] == "gapfirst":
+            blk[:, 0] = -1
+        elif e[3] == "reverse":
+            blk = blk[::-1].copy()
+        else:
+            blk = np.where(blk >= 0, blk + 1, blk)
+        ali.trace[e[1]:e[2]] = blk                      # slicing assignment into the same array
+    elif e[0] == "delrows":
+        ali.trace = np.delete(ali.trace, slice(e[1], e[2]), axis=0)
+    elif e[0] == "addrow":
+        ali.trace = np.concatenate([ali.trace, np.array([e[1]], dtype=ali.trace.dtype)], axis=0)
+    elif e[0] == "seq":
+        ali.sequences[e[1]] = _mkseq(alph, e[2])
+    elif e[0] == "seqcode":
+        if len(ali.sequences[e[1]]):
+            ali.sequences[e[1]].code[e[2] % len(ali.sequences[e[1]])] = e[3]
+    elif e[0] == "score":
+        ali.score = e[1]
+
+
+def _fresh(ali):
+    """a new Alignment with copies of the same content"""
+    from biotite.sequence.align import Alignment
+    return Alignment([s.copy() for s in ali.sequences], ali.trace.copy(), ali.score)
+
+
+def _oracle_history(case):
+    alph = case["alph"]
+    ali = _mkali(alph, case["seqs"], case["trace"])
+    v = []
+    steps = [None] + list(case["edits"])
+    for step_no, e in enumerate(steps):
+        if e is not None:
+            try:
+                _apply_edit(ali, alph, e)
+            except Exception:
+                continue
+        snap = _snapshot(ali)
+        got = _battery(ali, case["mseed"])                 # on the reused object
+        if _snapshot(ali) != snap:
+            bad = [k for k, val in got.items() if isinstance(val, str) and val.startswith("ERR:")]
+            v.append(("C11/state/conversion-modified-the-alignment", f"{case['seqs']} {case['trace']} edits={steps[1:step_no + 1]}: the "
+                      f"Alignment changed during the conversions (refused calls: {bad}): {snap} -> {_snapshot(ali)}"))
+            break
+        want = _battery(_fresh(ali), case["mseed"])        # on a fresh object of the same content
+        again = _battery(ali, case["mseed"])               # and once more on the reused object
+        for name in want:
+            if got[name] != want[name] or again[name] != want[name]:
+                v.append((f"C11/state/stale-after-edit/{name}", f"{case['seqs']} {case['trace']} after in-place edits {steps[1:step_no + 1]}: "
+                          f"{name} on the reused Alignment = {str(got[name])[:160]} / {str(again[name])[:80]}, on a fresh Alignment of the same content = {str(want[name])[:160]}"))
+                break
+        if v:
+            break
+    return v
+
+
+def _oracle_spell(case):
+    """same values, other spellings"""
+    import numpy as np
+    import biotite.sequence.align as align
+    from biotite.sequence.align import Alignment
+    alph, strs, cols = case["alph"], case["seqs"], case["trace"]
+    base = _mkali(alph, strs, cols)
+    ref = _battery(base, case["mseed"])
+    v = []
+    t = np.array(cols, dtype=np.int64)
+    wide = np.zeros((len(cols) * 2, 4), dtype=np.int64)
+    wide[::2, 1:3] = t
+    ro = t.copy()
+    ro.setflags(write=False)
+    variants = {"int32": t.astype(np.int32), "int16": t.astype(np.int16), "int8": t.astype(np.int8), "fortran": np.asfortranarray(t),
+                "strided": wide[::2, 1:3], "readonly": ro, "byteswapped": t.astype(t.dtype.newbyteorder()),
+                "float64": t.astype(np.float64) if False else t.astype(np.int64)}
+    for name, tr in variants.items():
+        got = _battery(Alignment([q.copy() for q in base.sequences], tr), case["mseed"])
+        for key in ref:
+            if got[key] != ref[key] and not (isinstance(got[key], str) and got[key] in ("ERR:TypeError",)):
+                v.append((f"C11/spelling/trace-{name}/{key}", f"{strs} {cols}: trace as {name} array gives {str(got[key])[:120]}, int64 C-array gives {str(ref[key])[:120]}"))
+                break
+    # scalar / container arguments
+    n = len(strs)
+    pair = cols
+    pos = _first_ref(_trim(pair))
+
+    def attempt(fn):
+        try:
+            return _canon(fn())
+        except Exception as e:  # noqa: BLE001
+            return "ERR:" + type(e).__name__
+    cig = attempt(lambda: align.write_alignment_to_cigar(base))
+    tup = attempt(lambda: align.write_alignment_to_cigar(base, as_string=False))
+    d_runs = _d_runs(_trim(pair))
+    intr = [(r[0], r[-1] + 1) for r in d_runs[:2]]
+    cig_i = attempt(lambda: align.write_alignment_to_cigar(base, introns=intr))
+    checks = []
+    for nm, ri, si in (("np.int64", np.int64(0), np.int64(1)), ("np.uint8", np.uint8(0), np.uint8(1)), ("np.int8", np.int8(0), np.int8(1)),
+                       ("negative", -2, -1), ("np.int16-negative", np.int16(-2), np.int16(-1))):
+        checks.append((f"cigar-index-{nm}", cig, attempt(lambda: align.write_alignment_to_cigar(base, ri, si))))
+    for nm, iv in (("tuple", tuple(intr)), ("ndarray-int32", np.array(intr, dtype=np.int32).reshape(-1, 2)), ("np-scalars", [(np.int64(a), np.uint16(b)) for a, b in intr]),
+                   ("list-of-lists", [list(x) for x in intr]), ("generator-free-iter", list(reversed(intr)))):
+        checks.append((f"cigar-introns-{nm}", cig_i, attempt(lambda: align.write_alignment_to_cigar(base, introns=iv))))
+    for nm, flag in (("np.bool_", np.bool_(True)), ("int-1", 1)):
+        checks.append((f"cigar-flags-{nm}", attempt(lambda: align.write_alignment_to_cigar(base, distinguish_matches=True, hard_clip=True, include_terminal_gaps=True)),
+                       attempt(lambda: align.write_alignment_to_cigar(base, distinguish_matches=flag, hard_clip=flag, include_terminal_gaps=flag))))
+    if isinstance(cig, str) and not cig.startswith("ERR"):
+        back = attempt(lambda: align.read_alignment_from_cigar(cig, pos, base.sequences[0], base.sequences[1]))
+        for nm, p in (("np.int64", np.int64(pos)), ("np.int32", np.int32(pos)), ("np.uint16", np.uint16(pos)), ("np.uint8", np.uint8(pos))):
+            checks.append((f"read-position-{nm}", back, attempt(lambda: align.read_alignment_from_cigar(cig, p, base.sequences[0], base.sequences[1]))))
+        tl = [(int(o), int(c)) for o, c in tup[2]] if isinstance(tup, tuple) else []
+        for nm, ops in (("list", tl), ("tuple", tuple(tl)), ("ndarray-int8", np.array(tl, dtype=np.int8).reshape(-1, 2) if all(c < 128 for _, c in tl) else np.array(tl).reshape(-1, 2)),
+                        ("ndarray-uint32", np.array(tl, dtype=np.uint32).reshape(-1, 2)), ("enum", [(align.CigarOp(o), c) for o, c in tl]),
+                        ("fortran", np.asfortranarray(np.array(tl).reshape(-1, 2)))):
+            checks.append((f"read-tuples-{nm}", back, attempt(lambda: align.read_alignment_from_cigar(ops, pos, base.sequences[0], base.sequences[1]))))
+        # symbol table both ways
+        for o in align.CigarOp:
+            if align.CigarOp.from_cigar_symbol(o.to_cigar_symbol()) != o:
+                v.append(("C11/cigar/symbol-table", f"{o!r} -> {o.to_cigar_symbol()!r} -> {align.CigarOp.from_cigar_symbol(o.to_cigar_symbol())!r}"))
+    a0 = base.sequences[0].get_alphabet()
+    k = len(a0)
+    mat = align.SubstitutionMatrix(a0, a0, (np.arange(k * k).reshape(k, k) % 7 - 3 + (np.arange(k * k).reshape(k, k) % 7 - 3).T).astype(np.int32))
+    sc = attempt(lambda: align.score(base, mat, (-6, -2), False))
+    for nm, gp, tp in (("list", [-6, -2], False), ("np.int64", (np.int64(-6), np.int64(-2)), np.bool_(False)), ("np.int8", (np.int8(-6), np.int8(-2)), 0)):
+        checks.append((f"score-gap-{nm}", sc, attempt(lambda: align.score(base, mat, gp, tp))))
+    sc1 = attempt(lambda: align.score(base, mat, -5))
+    for nm, gp in (("np.int32", np.int32(-5)), ("np.int64", np.int64(-5)), ("pair", (-5, -5))):
+        checks.append((f"score-linear-{nm}", sc1, attempt(lambda: align.score(base, mat, gp))))
+    sel = attempt(lambda: base[:, [1, 0]])
+    for nm, ix in (("tuple", (1, 0)), ("ndarray", np.array([1, 0])), ("ndarray-int8", np.array([1, 0], dtype=np.int8)), ("np-scalars", [np.int64(1), np.uint8(0)]),
+                   ("negative", [-1, -2])):
+        checks.append((f"select-{nm}", sel, attempt(lambda: base[:, ix])))
+    ncol = len(cols)
+    sl = attempt(lambda: base[1:ncol])
+    for nm, ix in (("np-ints", slice(np.int64(1), np.int32(ncol))), ("negative", slice(1 - ncol if ncol > 1 else 1, None)), ("index-array", np.arange(1, ncol)),
+                   ("index-list", list(range(1, ncol)))):
+        checks.append((f"slice-{nm}", sl, attempt(lambda: base[ix])))
+    gs = attempt(lambda: base.get_gapped_sequences())
+    if isinstance(gs, list):
+        tfs = attempt(lambda: Alignment.trace_from_strings(gs))
+        for nm, arg in (("tuple", tuple(gs)), ("np.str_", [np.str_(x) for x in gs]), ("ndarray", np.array(gs)), ("lists-of-chars", [list(x) for x in gs])):
+            checks.append((f"trace_from_strings-{nm}", tfs, attempt(lambda: Alignment.trace_from_strings(arg))))
+    for name, want, got in checks:
+        if got != want and got not in ("ERR:TypeError",):
+            v.append((f"C11/spelling/{name}", f"{strs} {cols}: {name} gives {str(got)[:140]}, the plain spelling gives {str(want)[:140]}"))
+    return v
+
+
 def _oracle_asbin(case):
     """as_binary keeps every leaf exactly once, in order, and every inner node has two children"""
     import re
@@ -1532,6 +1933,8 @@ def _oracle_msa(case):
         return []
     if r[0] == "crash":
         return [("C11/msa/crash", f"align_multiple crashed on {case['seqs']}")]
+    if r[0] == "err" and len(r) > 3 and [list(x) for x in r[3]] != [list(x) for x in case["seqs"]]:
+        return [("C11/msa/input-sequences-modified-by-refused-call", f"seqs={case['seqs']} are {r[3]} after align_multiple raised {r[1]}")]
     if r[0] == "err":
         what = f"align_multiple raised {r[1]} ({r[2][:80]}) on {case['seqs']} gap={case['gap']} tp={case['tp']} dist={case['dist']} tree={case['tree']}"
         if case["dist"] is None and r[1] == "ValueError" and "randomized alignment" in r[2]:
